@@ -1,5 +1,6 @@
 import gc
 import math
+import os
 from functools import cached_property
 from typing import Optional, Union
 
@@ -13,6 +14,7 @@ from .cayley_graph_def import AnyStateType, CayleyGraphDef, GeneratorType
 from .hasher import StateHasher
 from .string_encoder import StringEncoder
 from .torch_utils import isin_via_searchsorted
+from .torch_utils import VERIF_EVENTS
 
 
 class CayleyGraph:
@@ -128,6 +130,15 @@ class CayleyGraph:
         mask = torch.ones(hashes_sorted.size(0), dtype=torch.bool, device=self.device)
         if hashes_sorted.size(0) > 1:
             mask[1:] = hashes_sorted[1:] != hashes_sorted[:-1]
+
+        if os.environ.get("CAYLEYPY_VERIF") == "1" and hashes_sorted.size(0) > 1:
+            # Verification hook: rows with equal hash must be equal states.
+            rows = states[idx]
+            same_hash = ~mask[1:]
+            differ = (rows[1:] != rows[:-1]).reshape((rows.shape[0] - 1, -1)).any(dim=1)
+            if bool((same_hash & differ).any()):
+                j = int((same_hash & differ).nonzero()[0].item())
+                VERIF_EVENTS.append(("hash-collision", rows[j].tolist(), rows[j + 1].tolist()))
 
         unique_idx = idx[mask]
         return states[unique_idx], hashes[unique_idx]
